@@ -233,6 +233,10 @@ def install_loggers(api, current, stubs=(), choices=(), keep_real=False):
                     spec._GHOST["log"].append(("log-error", repr(e)))
             if _c.proof == "table" and not (keep_real and (_c.native_real or keep_real == "all")):
                 # an ASSUMED summary: the callee is replaced by the value the counterexample chose
+                if _c.interference is not None:
+                    ba = inspect.signature(_orig).bind(*a, **kw)
+                    ba.apply_defaults()
+                    call_spec(_c.interference, dict(ba.arguments))
                 if _c.native_effect is not None:
                     ba = inspect.signature(_orig).bind(*a, **kw)
                     ba.apply_defaults()
